@@ -41,7 +41,7 @@ PROPS = {
         "rule": "rule files generated from the documented grammar: 0..8 rules; quoted (incl. non-ASCII, operators) and bare names, optional description strings containing attribute keywords; every attribute in every "
                 "order (salience over the i32 range incl. negatives and extremes, no-loop / lock-on-active with and without `true`, agenda-group, activation-group incl. names such as \"no-loop\" and \"salience 7\", "
                 "date-effective / date-expires); condition trees to depth 5 over the typed core of C01 with redundant parentheses; literals of every type incl. strings with GRL metacharacters (; && || { } ( ) = , // then "
-                "when rule salience, quotes of the other kind, non-ASCII) in a third of the files; action forms: assignment (literal, arithmetic, concatenation, field copy, array), +=, Log, retract($X), ActivateAgendaGroup, "
+                "when rule salience, quotes of the other kind, non-ASCII) in a third of the files, and strings with runs of blanks, leading / trailing blanks, tabs and non-ASCII spaces everywhere; action forms: assignment (literal, arithmetic, concatenation, field copy, array), +=, Log, retract($X), ActivateAgendaGroup, "
                 "ScheduleRule, CompleteWorkflow, custom function calls with 0..3 arguments; layout: blanks, tabs, line breaks between any two tokens, comment lines and trailing comments anywhere (1 file in 12 with comments "
                 "containing a closing brace or a rule header). Second stream: bare when clauses (depth to 6, metacharacter strings in half of them, arbitrary blanks and redundant parentheses) through the hook "
                 "verif_parse_when_clause, compared with the Coq model of the condition-tree parser AND with the written tree. Observed per rule: name, salience, flags, groups, dates, condition tree, action list. "
